@@ -48,7 +48,9 @@ FILE_ROLE = {FN_SP: "sp", FN_SP + "~": "sp~", "._<U>_" + FN_SP: "tsp", FN_DOC: "
 PAYLOAD = {"data.txt": b"payload: " + bytes(range(48, 112)), "nested/f.bin": bytes(range(256)) * 3}
 DOCS = {"docA": {"x": 1}, "docO": {"y": 2}, "docO2": {"y": 3}, "docB": {"b": 1}, "docQ": {"q": 1}, "docEmpty": {},
         "pdocOld": {"p": 0}}
-ERRNOS = ["EIO", "ENOSPC", "EACCES", "EXDEV", "EROFS"]
+ERRNOS = ["EIO", "ENOSPC", "EACCES", "EXDEV", "EROFS"]  # the property's quantifier
+ERRNOS2 = ["EBUSY", "EPERM", "EMFILE", "ENOTEMPTY", "EINTR", "ENAMETOOLONG", "EDQUOT"]  # "or a file-system call fails": further errnos the
+#                                                  handlers must treat as plain failures (or, ENOTEMPTY, as "destination exists")
 ALL_W = ["w_doc_new", "w_doc", "w_pdoc", "w_flush", "w_cache_new", "w_cache"]
 LEVEL = "model_checking"
 
@@ -316,10 +318,7 @@ def _child_exec(box, scen, mode):
     import signac  # noqa
     apply_mutation()
     if scen.config == "nomt":
-        from synced_collections.backends.collection_json import BufferedJSONAttrDict
-        from signac.job import _StatePointDict
-        BufferedJSONAttrDict.disable_multithreading()
-        _StatePointDict.disable_multithreading()
+        _disable_mt()
     op = scen.setup(box)
     pre_paths = sorted(core.snapshot(box)) if mode.get("prepaths", True) else None
     pre_snap = {k: (v.hex() if isinstance(v, bytes) else v) for k, v in core.snapshot(box).items()} if mode.get("presnap") else None
@@ -587,8 +586,8 @@ def script_kind(mode):
 
 # ---------------------------------------------------------------------------------------------------
 # TLC side
-def consts(scns, maxf, doc="atomic", sp="atomic", K=3, reader=False, fixed=False, rproto="plain"):
-    return {"ReaderProto": tlc.lit(rproto), "Scenarios": tlc.lit(set(scns)), "MaxFaults": maxf, "Errnos": tlc.lit(set(ERRNOS)), "DocProto": tlc.lit(doc),
+def consts(scns, maxf, doc="atomic", sp="atomic", K=3, reader=False, fixed=False, rproto="plain", errnos=None):
+    return {"ReaderProto": tlc.lit(rproto), "Scenarios": tlc.lit(set(scns)), "MaxFaults": maxf, "Errnos": tlc.lit(set(errnos or ERRNOS)), "DocProto": tlc.lit(doc),
             "SpProto": tlc.lit(sp), "CacheChunks": K, "WithReader": tlc.lit(reader), "FixedCloneCleanup": tlc.lit(fixed)}
 
 
@@ -696,6 +695,52 @@ def _P(box):
     return signac.Project(os.path.join(box, "P"))
 
 
+def _pickled_in_other_process(box, what, touch, nomt):
+    """pickle a Job / Project handle in ANOTHER process (as a multiprocessing parent would); returns the bytes as hex"""
+    import pickle
+    if nomt:
+        _disable_mt()
+    p = _P(box)
+    h = p.open_job(SP["A"]) if what == "job" else p
+    if touch:
+        h.doc.get("x")
+    return pickle.dumps(h).hex()
+
+
+def _disable_mt():
+    from synced_collections.backends.collection_json import BufferedJSONAttrDict
+    from signac.job import _StatePointDict
+    BufferedJSONAttrDict.disable_multithreading()
+    _StatePointDict.disable_multithreading()
+
+
+def _handle(box, what, origin):
+    """the Job / Project handle the write goes through: from open_job / Project(), a shallow copy or an (un)pickled copy taken
+    before / after the first document access, or a handle pickled in another process and unpickled here (a worker process)"""
+    import copy
+    import pickle
+    from synced_collections.backends.collection_json import BufferedJSONAttrDict
+    p = _P(box)
+    h = p.open_job(SP["A"]) if what == "job" else p
+    kind, _, when = origin.partition("-")
+    if kind == "xproc":
+        code, hx = forked(_pickled_in_other_process, box, what, when == "after", not BufferedJSONAttrDict._threading_support_is_active)
+        if code != 0 or not hx:
+            raise core.MachineryError("could not pickle a handle in another process")
+        return pickle.loads(bytes.fromhex(hx))
+    if when == "after":
+        h.doc.get("x")
+    return copy.copy(h) if kind == "copy" else pickle.loads(pickle.dumps(h))
+
+
+def job_handle(box, origin):
+    return _handle(box, "job", origin)
+
+
+def project_handle(box, origin):
+    return _handle(box, "project", origin)
+
+
 def c10_scenarios(thorough=True):
     S = []
 
@@ -745,6 +790,15 @@ def c10_scenarios(thorough=True):
     add("w_doc", "large-to-small", lambda box: build_base(box, adoc=BIG),
         lambda box: (lambda j: (lambda: j.doc.__setitem__("big", "gone")))(_P(box).open_job(SP["A"])),
         [(jdoc, BIG, dict(BIG, big="gone"), "json")], {"docA": BIG, "docNew": dict(BIG, big="gone")})
+    # ORIGIN OF THE HANDLE: the protocol must not depend on how the process came by the Job / Project object
+    for origin in ("copy-before", "copy-after", "pickle-before", "pickle-after", "xproc-before", "xproc-after"):
+        add("w_doc", "handle:" + origin, lambda box: build_base(box),
+            (lambda o: lambda box: (lambda h: (lambda: h.doc.__setitem__("y", 2)))(job_handle(box, o)))(origin),
+            [(jdoc, {"x": 1}, {"x": 1, "y": 2}, "json")], {"docNew": {"x": 1, "y": 2}})
+    for origin in ("copy-before", "copy-after", "pickle-before", "pickle-after", "xproc-after"):
+        add("w_pdoc", "handle:" + origin, lambda box: build_base(box, a="none", pdoc=DOCS["pdocOld"]),
+            (lambda o: lambda box: (lambda h: (lambda: h.doc.__setitem__("z", 3)))(project_handle(box, o)))(origin),
+            [("P/" + FN_PDOC, {"p": 0}, {"p": 0, "z": 3}, "json")], {"pdocNew": {"p": 0, "z": 3}})
     if thorough:  # further entry points of the same protocol
         add("w_doc", "del-key", lambda box: build_base(box, adoc={"x": 1, "gone": [1, 2]}),
             lambda box: (lambda j: (lambda: j.doc.__delitem__("gone")))(_P(box).open_job(SP["A"])),
@@ -924,6 +978,13 @@ def run(ctx):
     mut = os.environ.get("VERIF_MUTATION", "")
     # ---- record the real protocols ---------------------------------------------------------------
     recs, work = record_and_enumerate(ctx, scens, nprocs)
+    # a handle pickled in another process after its document was opened cannot write at all while the dependency's thread-safety
+    # mode is on (KeyError: the per-file lock table of the receiving process has no entry) - nothing is written, so there is
+    # nothing for C10 to observe; recorded as a note, not as a verdict
+    unusable = [s for s in scens if s.variant.startswith("handle:xproc") and recs[s.key]["res"] != "ok" and recs[s.key]["n"] == 0]
+    for s in unusable:
+        ctx.notes.append("%s: the handle cannot write (%s %s) - scenario skipped" % (s.key, recs[s.key]["res"], recs[s.key]["detail"][:80]))
+    scens = [s for s in scens if s not in unusable]
     ks = sorted({sum(1 for e in recs[s.key]["events"] if e["op"] == "write") for s in scens if s.spec.startswith("w_cache")})
     K = ks[0] if ks else 3
     if len(ks) > 1:
@@ -1028,7 +1089,8 @@ def run(ctx):
         ctx.count((s.spec, s.variant, s.config, kind, mode.get("crash_at"), mode.get("torn"), json.dumps(mode.get("reader")), mode.get("session_at")), traces=1)
         for cond, text in bad:
             nviol += 1
-            sig = "%s:%s:%s:%s" % (s.kw.get("sigop", s.spec.split("_")[1]), s.config, kind.split("+")[0], cond)
+            sigop = s.kw.get("sigop", s.spec.split("_")[1]) + ("@" + s.variant[7:] if s.variant.startswith("handle:") else "")
+            sig = "%s:%s:%s:%s" % (sigop, s.config, kind.split("+")[0], cond)
             ctx.violation(sig, "%s [%s, %s, %s]: %s (interrupted before/inside step %s %s)" % (s.spec, s.variant, s.config, origin, text, mode.get("crash_at"), stepop),
                           {"scenario": s.key, "mode": mode})
         if not mode.get("reader"):
